@@ -81,6 +81,16 @@ static Case cases[] = {
              return printf("expected F1 90 80 80, got %u units starting %02X\n", s->Length(), (unsigned char)s->First()[0]), 1;
          return 0;
      }},
+    // ---- C16 ownership
+    {"qexpression_move_assign_sub", [] {
+         using Q = QExpression;
+         Array<Q> s1; s1 += Q{Q::ExpressionType::NaturalNumber, Q::QOperation::NoOp};
+         Array<Q> s2; s2 += Q{Q::ExpressionType::NaturalNumber, Q::QOperation::NoOp};
+         Q a{Memory::Move(s1), Q::QOperation::NoOp};
+         Q b{Memory::Move(s2), Q::QOperation::NoOp};
+         a = Memory::Move(b);
+         return (a.SubExpressions.Size() == 1) ? 0 : 1;
+     }},
     // ---- C14 sequences
     {"array_append_array_keeps_front", [] {
          Array<String<char>> a, b;
